@@ -61,8 +61,13 @@ example : lookupPath [("a/x", "x"), ("b/x", "_"), ("c/x", "_")] "_" = some "b/x"
 
 /-- `NewImportNames` itself is order-deterministic: it is a function of the import specs in
 source order (the first blank import whose base name is free gets it) -/
-example : newImportNames [⟨"exp/hooks/conv", "_"⟩, ⟨"exp/plugins/conv", "_"⟩] =
+example : newImportNames [{ path := "exp/hooks/conv", alias := "_" }, { path := "exp/plugins/conv", alias := "_" }] =
     [("exp/hooks/conv", "conv"), ("exp/plugins/conv", "_")] := by decide
+
+/-- an import without an explicit name goes by the name its package declares (repaired, DESIGN §5 #7) -/
+example : importNamesOf [{ path := "exp/go-foo", pkgName := "foo" }, { path := "exp/bar/v2", pkgName := "bar" },
+      { path := "exp/x", alias := "y", pkgName := "x" }] =
+    [("exp/go-foo", "foo"), ("exp/bar/v2", "bar"), ("exp/x", "y")] := by decide
 
 /-- **T13.3.** The run is a function of (configuration, core, world): trivially so in the model —
 stated to make explicit what is *assumed* of `core` (`go list`, `goimports`, the printer). -/
